@@ -29,6 +29,13 @@ judges every gradient component the code returns. Three engines, one case kind e
           the same object before the call, closed form w.r.t. the *own* incumbent, and gradient ==
           differences are checked again; the value obtained through ``predictor=`` must equal the value
           of an acquisition function created for those predictors.
+``syn``   hand-written ``Predictor`` objects (linear mean per fantasy sample, std in {1e-13 .. 1e-9}:
+          below / at / just above the 1e-10 floor of ``get_quantiles``; constant at or below the floor,
+          slowly varying above) under EI / LCB / EIpu / CEI: value == closed form with the floor applied
+          consistently (``s_eff = max(std, 1e-10)`` everywhere), gradient == differences of the value.
+          GP states on a metric of scale 1e-8 (``tiny``) give std below the floor next to observed points;
+          there the EI value is judged against the same closed form (the gradient is not: below the floor
+          the head gradient w.r.t. a *varying* std ignores the floor).
 ``ops``   the custom autograd primitives: ``cholesky_factorization`` (vjp vs differences along
           symmetric directions on random SPD matrices) and ``AddJitterOp`` (matrix part and
           ``sigsq`` part), alone and chained as in ``cholesky_computations``.
@@ -181,11 +188,13 @@ def preload():
 
 
 # ----------------------------------------------------------------------------------- cases
+STD_FLOOR = 1e-10  # get_quantiles: "s[s < 1e-10] = 1e-10"
+SYN_STDS = [1e-13, 1e-11, 5e-11, 1e-10, 2e-10, 1e-9]
 CELLS = [(a, w, m, t) for a in (0, 1) for w in (0, 1) for m in ("scalar", "zero") for t in ("id", "boxcox")]
 SIZES = {
     # crit cases (x points each), acq cases (4 acquisition functions x xpoints each), ops cases
-    "quick": {"crit": 288, "crit_points": 6, "acq": 160, "acq_mcmc": 64, "acq_x": 5, "ops": 320},
-    "thorough": {"crit": 2400, "crit_points": 6, "acq": 1600, "acq_mcmc": 640, "acq_x": 5, "ops": 3200},
+    "quick": {"crit": 288, "crit_points": 6, "acq": 160, "acq_mcmc": 64, "acq_x": 5, "syn": 144, "ops": 320},
+    "thorough": {"crit": 2400, "crit_points": 6, "acq": 1600, "acq_mcmc": 640, "acq_x": 5, "syn": 1440, "ops": 3200},
 }
 
 
@@ -227,6 +236,10 @@ def cases(tier, seed):
                 "order": "last" if (i // 2) % 2 else "first",
             }
         )
+        if i % 8 == 7 or i % 16 == 3:
+            # metric reported on a tiny scale (1e-8) with normalisation on: de-normalised predictive
+            # std below the 1e-10 floor of get_quantiles at / next to observed points
+            out[-1].update({"tiny": True, "transform": "id", "npend": min(out[-1]["npend"], 1)})
     for i in range(sz["acq_mcmc"]):
         # several posterior states per output (MCMC surrogate: hyper-parameters sampled by slice sampling);
         # no pending evaluations (GaussProcMCMCEstimator draws n_samples fantasies but keeps
@@ -240,6 +253,15 @@ def cases(tier, seed):
                 "order": "first" if i % 4 == 0 else "last", "mcmc": True,
                 # retained samples per output model (target, cost, constraint); differ in half of the cases
                 "mcmc_states": [int(rng.integers(2, 6))] * 3 if i % 2 else [int(rng.integers(2, 6)) for _ in range(3)],
+            }
+        )
+    for i in range(sz["syn"]):
+        # hand-written Predictors (public interface) in the degenerate-variance regime of get_quantiles
+        out.append(
+            {
+                "kind": "syn", "seed": base + 800000 + i, "d": int(rng.integers(1, 5)), "n": int(rng.integers(2, 8)),
+                "nf": [1, 1, 3, 5][i % 4], "std": SYN_STDS[i % len(SYN_STDS)], "xpoints": 4,
+                "order": "last" if (i // 6) % 2 else "first",
             }
         )
     for i in range(sz["ops"]):
@@ -275,12 +297,18 @@ def floors(tier):
         f["decided_nonzero:crit_grad:" + pc] = 200 * m
     for a in ("EI", "LCB", "EIpu", "CEI"):
         f["decided:acq_point:" + a] = 300 * m
-        f["decided:acq_point:fantasies_gt1:" + a] = 200 * m
-    f["decided:acq_point:fantasies_gt1"] = 1000 * m
+        f["decided:acq_point:fantasies_gt1:" + a] = 150 * m
+    f["decided:acq_point:fantasies_gt1"] = 800 * m
     for a in ("EIpu", "CEI"):
         f["decided:acq_point:active_not_first:" + a] = 150 * m
         f["decided:acq_point:mcmc_active_not_first:" + a] = 60 * m
     f["decided:acq_point:mcmc"] = 300 * m
+    for a in ("EI", "EIpu", "CEI"):
+        f["decided:acq_point:std_below_floor:" + a] = 120 * m
+        f["decided:acq_point:std_at_floor:" + a] = 40 * m
+        f["decided:acq_point:std_just_above_floor:" + a] = 80 * m
+        f["decided:syn_closed_form:std_below_floor:" + a] = 200 * m
+    f["decided:ei_closed_form:std_below_floor:gp"] = 20 * m
     for a in ("EI", "LCB", "EIpu", "CEI"):
         f["decided:acq_point:after_foreign_predictor_call:" + a] = 150 * m
         f["decided:acq_value_history_independent:" + a] = 400 * m
@@ -716,6 +744,8 @@ def _build_state(rng, spec):
         y = np.exp(rng.uniform(0.2, 1.2) * f) * 10 ** rng.uniform(-1, 1)
     else:
         y = f * 10 ** rng.uniform(-1.5, 1.5) + rng.normal() * 3
+    if spec.get("tiny"):
+        y = (f + rng.normal()) * 1e-8 * rng.uniform(0.3, 3.0)
     cost = np.exp(0.7 * (Xall @ rng.normal(size=d)) + 0.1 * rng.normal(size=n + npend)) * 10 ** rng.uniform(-1, 2)
     g = Xall @ rng.normal(size=d) + 0.05 * rng.normal(size=n + npend)
     g = g - np.mean(g[:n])
@@ -884,6 +914,8 @@ def _run_acq(spec, o):
     for k, metric in enumerate((_TARGET, _COST, _CONSTR)):
         bc = boxcox if metric == _TARGET else False
         normalize = (not bc) and (rng.random() < 0.8) if metric != _COST else False
+        if spec.get("tiny") and metric == _TARGET:
+            normalize = True
         try:
             if mcmc:
                 preds[metric], jit_build[metric] = _build_predictor_mcmc(
@@ -911,6 +943,8 @@ def _run_acq(spec, o):
     if any(jit_build.values()):
         o.count("acq_cases_jitter_in_posterior_state")  # constant in x: not a non-smoothness here
     xi = [0.01, 0.01, 0.0, float(10 ** rng.uniform(-4, 0))][int(rng.integers(4))]
+    if spec.get("tiny"):
+        xi = [0.0, 1e-10, 1e-9, 1e-11][int(rng.integers(4))]  # "jitter scaled to the metric"
     kappa = float(rng.uniform(0.1, 4.0))
     expo = float(rng.uniform(0.05, 1.0)) if rng.random() < 0.7 else 1.0
     used_by = {"EI": [_TARGET], "LCB": [_TARGET], "EIpu": [_TARGET, _COST], "CEI": [_TARGET, _CONSTR]}
@@ -970,7 +1004,7 @@ def _run_acq(spec, o):
         nx = len(xs_given) if xs_given else spec["xpoints"]
         n_foreign = 0
         for k in range(nx):
-            x = np.array(xs_given[k], dtype=float) if xs_given else _sample_x(rng, d, Xall, k)
+            x = np.array(xs_given[k], dtype=float) if xs_given else _sample_x(rng, d, Xall, (3 + k % 2) if (spec.get("tiny") and k) else k)
             o.count("acq_points")
             o.ev("acq_point", name, [float(v) for v in x])
             # ---- history step: the same object scores inputs for the foreign predictors
@@ -1084,11 +1118,15 @@ def _run_acq(spec, o):
                 if -v1 < -4 * np.finfo(float).eps * scale or -v0 < -4 * np.finfo(float).eps * scale:
                     o.violate("expected_improvement_nonnegative", f"ei_negative:{name}", {"minus_acq": -v1, "minus_acq_in_batch": -v0, "x": x, "band_scale": scale, "cell": cell, "nf": nf})
                 if name == "EI":
-                    if "std_clamp" in clamps and s <= 1e-10 * (1 + 1e-6):
-                        o.count("nonsmooth:std_clamp_closed_form")
+                    if False:
+                        pass
                     else:
-                        # average over posterior states of the per-state closed form (mean over fantasies)
-                        closed = float(np.mean([np.mean((inc - m - xi) * norm.cdf(u) + s_ * norm.pdf(u)) for inc, m, s_, u in zip(incs, ms, ss, us)]))
+                        # average over posterior states of the per-state closed form (mean over fantasies);
+                        # the documented floor of the std is applied consistently: s_eff = max(std, 1e-10)
+                        closed = float(np.mean([np.mean((inc - m - xi) * norm.cdf(u) + max(s_, STD_FLOOR) * norm.pdf(u)) for inc, m, s_, u in zip(incs, ms, ss, us)]))
+                        if s < STD_FLOOR:
+                            o.count("decided:ei_closed_form:std_below_floor")
+                            o.count("decided:ei_closed_form:std_below_floor:gp")
                         o.count("decided:ei_closed_form")
                         if nf > 1:
                             o.count("decided:ei_closed_form:fantasies_gt1")
@@ -1097,7 +1135,7 @@ def _run_acq(spec, o):
                         if n_foreign:
                             o.count("decided:ei_closed_form:after_foreign_predictor_call")
                         if abs(-v1 - closed) > 1e-9 * scale + 1e-300:
-                            o.violate("expected_improvement_closed_form", f"ei_closed_form_mismatch:{tag}{hist}",
+                            o.violate("expected_improvement_closed_form", f"ei_closed_form_mismatch:{tag}{hist}{':std_below_floor' if s < STD_FLOOR else ''}",
                                       {"minus_acq": -v1, "closed_form": closed, "mean": ms, "std": ss, "incumbent": incs, "xi": xi, "x": x, "cell": cell})
             # ---- gradient
             if clamps:
@@ -1183,6 +1221,180 @@ def _run_acq(spec, o):
     o.sample = {"kind": "acq", "cell": cell, "n": spec["n"], "d": d, "npend": spec["npend"], "nf": nf, "fit": spec["fit"],
                 "dict_order": "active_" + order, "posterior_states": nstates,
                 "cei_regime": cei_regime, "xi": xi, "kappa": kappa, "exponent_cost": expo, "points": sorted(set(obs_sig))}
+
+
+# ===================================================================================== syn
+_SYN = {}
+
+
+def _syn_predictor_class():
+    """Hand-written surrogate with the public Predictor interface: linear mean (one column per
+    fantasy sample), std constant (at / below the floor) or slowly varying (above), exact
+    ``backward_gradient`` by the chain rule. Incumbent = BasePredictor.current_best()."""
+    if "cls" in _SYN:
+        return _SYN["cls"]
+    from syne_tune.optimizer.schedulers.searchers.bayesopt.models.model_base import BasePredictor
+
+    class LinearPredictor(BasePredictor):
+        def __init__(self, state, metric, a, b, std0, std_slope):
+            super().__init__(state, metric)
+            self.a = np.asarray(a, dtype=float)  # (d,)
+            self.b = np.asarray(b, dtype=float).reshape(-1)  # (nf,)
+            self.std0 = float(std0)
+            self.std_slope = np.asarray(std_slope, dtype=float)  # (d,), relative
+
+        def std_at(self, inputs):
+            return self.std0 * (1.0 + inputs @ self.std_slope)
+
+        def predict(self, inputs):
+            inputs = np.asarray(inputs, dtype=float)
+            m = (inputs @ self.a).reshape(-1, 1) + self.b.reshape(1, -1)
+            if self.b.size == 1:
+                m = m.reshape(-1)
+            return [{"mean": m, "std": self.std_at(inputs).reshape(-1)}]
+
+        def backward_gradient(self, input, head_gradients):
+            out = []
+            for hg in head_gradients:
+                g = float(np.sum(hg["mean"])) * self.a
+                if "std" in hg:
+                    g = g + float(np.sum(hg["std"])) * self.std0 * self.std_slope
+                out.append(g)
+            return out
+
+    _SYN["cls"] = LinearPredictor
+    return LinearPredictor
+
+
+def _run_syn(spec, o):
+    from scipy.stats import norm
+    from syne_tune.optimizer.schedulers.searchers.bayesopt.models.meanstd_acqfunc_impl import (
+        EIAcquisitionFunction, LCBAcquisitionFunction, EIpuAcquisitionFunction, CEIAcquisitionFunction, MIN_COST, MIN_STD_CONSTRAINT,
+    )
+
+    LP = _syn_predictor_class()
+    rng = np.random.default_rng([spec["seed"], 7])
+    d, nf, std0 = spec["d"], spec["nf"], float(spec["std"])
+    state, hp_ranges, Xall = _build_state(rng, dict(spec, npend=0, transform="id", feas="all"))
+    regime = "std_below_floor" if std0 < STD_FLOOR else ("std_at_floor" if std0 == STD_FLOOR else "std_just_above_floor")
+    s_eff0 = max(std0, STD_FLOOR)
+    # everything on the scale of the effective std, so that u = (best - mean - xi) / s_eff is O(1)
+    msc = s_eff0 * float(rng.choice([0.3, 1.0, 3.0]))
+    a = rng.normal(size=d) * msc
+    b = rng.normal(size=nf) * msc * 0.5
+    slope = np.zeros(d) if std0 <= STD_FLOOR else rng.uniform(-0.3, 0.3, size=d) / d  # slowly varying only above the floor
+    xi = float(rng.choice([0.0, 0.1, 1.0])) * s_eff0
+    kappa = float(rng.uniform(0.1, 4.0))
+    expo = float(rng.uniform(0.05, 1.0)) if rng.random() < 0.7 else 1.0
+    ptar = LP(state, _TARGET, a, b, std0, slope)
+    nfc = nf if rng.random() < 0.5 else 1
+    pcost = LP(state, _COST, rng.uniform(0.1, 1.0, size=d), rng.uniform(0.5, 2.0, size=nfc), 0.1, np.zeros(d))
+    ac = rng.normal(size=d)
+    pcon = LP(state, _CONSTR, ac, -np.sum(np.abs(ac)) - rng.uniform(0.1, 1.0, size=nf), float(rng.uniform(0.05, 1.0)), rng.uniform(-0.2, 0.2, size=d) / d)
+    order = spec.get("order", "first")
+
+    def dd(second, p2):
+        return {_TARGET: ptar, second: p2} if order == "first" else {second: p2, _TARGET: ptar}
+
+    try:
+        acqs = {
+            "EI": EIAcquisitionFunction(ptar, jitter=xi),
+            "LCB": LCBAcquisitionFunction(ptar, kappa=kappa),
+            "EIpu": EIpuAcquisitionFunction(dd(_COST, pcost), active_metric=_TARGET, exponent_cost=expo, jitter=xi),
+            "CEI": CEIAcquisitionFunction(dd(_CONSTR, pcon), active_metric=_TARGET, jitter=xi),
+        }
+    except Exception as e:  # noqa: BLE001
+        o.violate("acquisition_gradient", f"raised:acquisition_constructor:{type(e).__name__}", {"error": repr(e)[:300]})
+        return
+    o.count("syn_cases")
+    o.count("syn_cases:" + regime)
+    # incumbent: min over the observed candidates of the predictive mean, per fantasy sample
+    inc = np.min(np.asarray(ptar.predict(Xall)[0]["mean"], dtype=float).reshape(Xall.shape[0], -1), axis=0)
+    decided_any, obs_sig = False, []
+    for name, acq in acqs.items():
+        for k in range(spec["xpoints"]):
+            x = rng.uniform(X_MARGIN, 1 - X_MARGIN, size=d)
+            o.count("syn_points")
+            o.ev("syn_point", name, regime, [float(v) for v in x])
+            try:
+                fv, g = acq.compute_acq_with_gradient(np.array(x))
+                sten = _stencil(x, ACQ_STEPS)
+                npts = fd.noise_points(x, rng)
+                rows = np.vstack([x.reshape(1, -1), npts, sten])
+                vals = np.asarray(acq.compute_acq(np.array(rows)), dtype=float).reshape(-1)
+                v1 = float(np.asarray(acq.compute_acq(np.array(x).reshape(1, -1)), dtype=float).reshape(-1)[0])
+            except Exception as e:  # noqa: BLE001
+                o.violate("acquisition_gradient", f"raised:acquisition_on_custom_predictor:{name}:{type(e).__name__}", {"x": x, "error": repr(e)[:300], "std": std0})
+                continue
+            fv = float(np.reshape(fv, (-1,))[0])
+            g = np.array(g, dtype=float).reshape(-1)
+            v0 = float(vals[0])
+            o.count("decided:acq_value")
+            if not _value_equal(fv, v1, 1e-300):
+                o.violate("value_with_gradient_equals_value_alone", f"acq_value_mismatch:{name}:custom_predictor:{regime}", {"with_grad": fv, "alone": v1, "x": x, "std": std0})
+            # ---- closed form with the floor applied consistently
+            m = np.asarray(ptar.predict(x.reshape(1, -1))[0]["mean"], dtype=float).reshape(-1)
+            s_raw = float(ptar.std_at(x.reshape(1, -1))[0])
+            s_eff = max(s_raw, STD_FLOOR)
+            u = (inc - m - xi) / s_eff
+            ei_f = s_eff * (u * norm.cdf(u) + norm.pdf(u))
+            scale_f = s_eff * (np.abs(u) * norm.cdf(u) + norm.pdf(u))
+            if name == "LCB":
+                closed, scale = -float(np.mean(m) - kappa * s_raw), float(np.mean(np.abs(m)) + kappa * s_raw)
+            elif name == "EI":
+                closed, scale = float(np.mean(ei_f)), float(np.mean(scale_f))
+            elif name == "EIpu":
+                cm = np.maximum(np.asarray(pcost.predict(x.reshape(1, -1))[0]["mean"], dtype=float).reshape(-1), MIN_COST)
+                closed, scale = float(np.mean(ei_f * np.power(cm, -expo))), float(np.mean(scale_f * np.power(cm, -expo)))
+            else:
+                prc = pcon.predict(x.reshape(1, -1))[0]
+                mc = np.asarray(prc["mean"], dtype=float).reshape(-1)
+                pfeas = norm.cdf(-mc / (float(prc["std"][0]) + MIN_STD_CONSTRAINT))
+                closed, scale = float(np.mean(ei_f * pfeas)), float(np.mean(scale_f * pfeas))
+            o.count("decided:syn_closed_form:" + regime + ":" + name)
+            if name != "LCB":
+                o.count("decided:ei_nonneg")
+                if -v1 < -4 * np.finfo(float).eps * scale:
+                    o.violate("expected_improvement_nonnegative", f"ei_negative:{name}:custom_predictor", {"minus_acq": -v1, "x": x, "std": std0})
+            if abs(-v1 - closed) > 1e-8 * scale + 1e-300:
+                o.violate("expected_improvement_closed_form" if name != "LCB" else "acquisition_gradient",
+                          f"closed_form_mismatch:{name}:custom_predictor:{regime}",
+                          {"minus_acq": -v1, "closed_form_with_floor": closed, "std": s_raw, "std_floor": STD_FLOOR, "mean": m, "incumbent": inc, "xi": xi, "x": x, "nf": nf})
+            # ---- gradient == differences of the returned value
+            delta = fd.noise_from_values(v0, vals[1 : 1 + len(npts)])
+            svals = vals[1 + len(npts):]
+            atol = ACQ_ATOL_REL * abs(v0) + 1e-300
+            n_inc = 0
+            for i in range(d):
+                gi = float(g[i])
+                derivs = []
+                for li, h in enumerate(ACQ_STEPS):
+                    bb = (li * d + i) * 4
+                    derivs.append(fd.richardson_from_values(svals[bb], svals[bb + 1], svals[bb + 2], svals[bb + 3], h, delta, f0=v0))
+                for li in range(len(derivs) - 1, 0, -1):
+                    if derivs[li - 1].finite and derivs[li].finite:
+                        derivs[li].noise = max(derivs[li].noise, 3.0 * (derivs[li - 1].d4 / 4.0) / derivs[li].h)
+                dres = fd.pick(derivs, lambda r, _g=gi: (atol + ACQ_RTOL * max(abs(_g) if math.isfinite(_g) else 0.0, abs(r))) / TRUST)
+                verdict, tol = _judge(gi, dres, atol, ACQ_RTOL)
+                if verdict == "inconclusive":
+                    n_inc += 1
+                    continue
+                o.count("decided:acq_grad_component")
+                if abs(dres.value) > tol:
+                    decided_any = True
+                if verdict == "violated":
+                    o.violate("acquisition_gradient", f"acq_grad_mismatch:{name}:custom_predictor:{regime}:{_ratio_class(gi, dres.value)}",
+                              {"acq": name, "component": i, "grad": gi, "richardson": dres.value, "err_estimate": dres.err, "tol": tol, "h": dres.h,
+                               "value": v0, "x": x, "std": s_raw, "nf": nf, "dict_order": "active_" + order})
+            if n_inc == 0:
+                o.count(f"decided:acq_point:{regime}:{name}")
+                o.count("decided:acq_point:custom_predictor")
+                obs_sig.append((name, "all"))
+            else:
+                o.inconclusive("syn_point_some_components_untrustworthy")
+                obs_sig.append((name, "part"))
+    o.set_sig(["syn", d, nf, nfc, std0, order, sorted(set(obs_sig))], nontrivial=decided_any)
+    o.sample = {"kind": "syn", "d": d, "nf": nf, "std": std0, "regime": regime, "xi": xi, "mean_scale": msc, "points": sorted(set(obs_sig))}
 
 
 # ===================================================================================== ops
@@ -1348,6 +1560,8 @@ def run_case(spec):
         _run_crit(spec, o)
     elif kind == "acq":
         _run_acq(spec, o)
+    elif kind == "syn":
+        _run_syn(spec, o)
     else:
         _run_ops(spec, o)
     for k, v in _SPY["reach"].items():
